@@ -480,6 +480,12 @@ impl MorselAggregateExec {
                 let Some(stats) = col.statistics() else {
                     return Ok(None);
                 };
+                // The direct-address table has no slot for the NULL group: take
+                // the generic path unless the footer proves the key column holds
+                // no NULL (an unknown null count counts as "may hold one").
+                if stats.null_count_opt() != Some(0) {
+                    return Ok(None);
+                }
                 use parquet::file::statistics::Statistics;
                 let (lo, hi) = match stats {
                     Statistics::Int64(s) => match (s.min_opt(), s.max_opt()) {
